@@ -205,7 +205,10 @@ PROPS = {
     "C11": {
         "lean": ["GldapModel.Props.C11"], "audit": "GldapModel/Audit/C11.lean",
         "inventory": LIFECYCLE_FUNCS + ["Request.StartTLS", "ResponseWriter.Write", "Mux.serve"],
-        "streams": [{"stream": "c11", "n_quick": 24, "n_thorough": 600, "timeout_quick": 900, "timeout_thorough": 6000}],
+        "streams": [{"stream": "c11", "n_quick": 24, "n_thorough": 600, "timeout_quick": 900, "timeout_thorough": 6000},
+                    # Router() called while Stop waits for a busy connection, a request of that connection between its read and
+                    # its dispatch (corpus)
+                    {"stream": "c08", "n_quick": 4, "n_thorough": 100, "timeout_quick": 900, "timeout_thorough": 6000}],
         "trusted": RUNTIME_TRUST,
         "assumptions": ["partial: the theorem is progress (a server-only step is always enabled while a Stop is in progress); seconds are measured by the oracle; handlers are assumed to return once their I/O fails"],
     },
